@@ -123,6 +123,18 @@ def packRepo (r : Repo) : Repo := ⟨dedupKeys r.revs, dedupKeys r.invs, dedupKe
 
 def pack (s : Stacked) : Stacked := { s with st := packRepo s.st }
 
+/-- the WRONG repack (witness only): like `pack`, but a text that the fallback holds as
+well is not copied into the new pack ("the fallback has it anyway") -/
+def packMinusFallback (s : Stacked) : Stacked :=
+  { s with st := { packRepo s.st with
+      texts := (dedupKeys s.st.texts).filter fun kv => (get s.fb.texts kv.1).isNone } }
+
+/-- the fallback acquires what the stacked repository (read through the stack) holds of the
+ancestry it is given: the branch is landed on the trunk it is stacked on.  The stacked
+repository itself is not touched. -/
+def land (s : Stacked) (revs : List (Rev × RevRec)) (invs : List (Rev × Inv)) (texts : List (TextKey × Nat)) : Stacked :=
+  { s with fb := ⟨s.fb.revs ++ revs, s.fb.invs ++ invs, s.fb.texts ++ texts⟩ }
+
 /-! ### hypotheses -/
 
 /-- every locally stored inventory belongs to a revision of the stack or of the fallback -/
